@@ -805,18 +805,34 @@ func c19Faults(x *xctx) *violation {
 	type plan struct {
 		f    simos.Fault
 		desc string
+		// persisting fault: from this call on the disk stays full (-1: one-shot fault only)
+		fullFrom    int64
+		fullCreates bool
 	}
 	var plans []plan
 	for _, c := range log {
 		where := fmt.Sprintf("call %d %s(%s)", c.Index, simos.OpName(c.Op), simos.Base(c.Path))
-		plans = append(plans, plan{simos.Fault{At: c.Index, Kind: simos.FCrashBefore}, "kill before " + where})
-		plans = append(plans, plan{simos.Fault{At: c.Index, Kind: simos.FCrashAfter}, "kill after " + where})
+		if c.Op == simos.OpWrite || c.Op == simos.OpCreate || c.Op == simos.OpMkdir {
+			// The disk fills up and stays full: this and every later write fails,
+			// whatever the program tries next (retry, fallback, clean-up).
+			never := simos.Fault{At: -1}
+			plans = append(plans, plan{never, "disk full (writes) from " + where + " on", c.Index, false})
+			plans = append(plans, plan{never, "disk full (writes and creations) from " + where + " on", c.Index, true})
+			if c.Op == simos.OpWrite && c.N > 1 {
+				for _, k := range []int{1, c.N / 2, c.N - 1} {
+					plans = append(plans, plan{simos.Fault{At: c.Index, Kind: simos.FShortWrite, Arg: k, Errno: syscall.ENOSPC},
+						fmt.Sprintf("disk full after %d of %d bytes of %s, and from then on", k, c.N, where), c.Index + 1, k%2 == 0})
+				}
+			}
+		}
+		plans = append(plans, plan{simos.Fault{At: c.Index, Kind: simos.FCrashBefore}, "kill before " + where, -1, false})
+		plans = append(plans, plan{simos.Fault{At: c.Index, Kind: simos.FCrashAfter}, "kill after " + where, -1, false})
 		if c.Op != simos.OpRead && c.Op != simos.OpStat {
 			for _, e := range []syscall.Errno{syscall.ENOSPC, syscall.EIO, syscall.EACCES} {
-				plans = append(plans, plan{simos.Fault{At: c.Index, Kind: simos.FErr, Errno: e}, fmt.Sprintf("%v at %s", e, where)})
+				plans = append(plans, plan{simos.Fault{At: c.Index, Kind: simos.FErr, Errno: e}, fmt.Sprintf("%v at %s", e, where), -1, false})
 			}
 		} else {
-			plans = append(plans, plan{simos.Fault{At: c.Index, Kind: simos.FErr, Errno: syscall.EIO}, "EIO at " + where})
+			plans = append(plans, plan{simos.Fault{At: c.Index, Kind: simos.FErr, Errno: syscall.EIO}, "EIO at " + where, -1, false})
 		}
 		if c.Op == simos.OpWrite {
 			// Every byte position in the thorough tier; in the quick tier every
@@ -829,7 +845,7 @@ func c19Faults(x *xctx) *violation {
 				if !keep(k) {
 					continue
 				}
-				plans = append(plans, plan{simos.Fault{At: c.Index, Kind: simos.FCrashMid, Arg: k}, fmt.Sprintf("kill after %d of %d bytes of %s", k, c.N, where)})
+				plans = append(plans, plan{simos.Fault{At: c.Index, Kind: simos.FCrashMid, Arg: k}, fmt.Sprintf("kill after %d of %d bytes of %s", k, c.N, where), -1, false})
 			}
 			for k := 0; k < c.N; k++ {
 				if !keep(k) {
@@ -839,7 +855,7 @@ func c19Faults(x *xctx) *violation {
 				if k%7 == 3 {
 					e = syscall.EIO
 				}
-				plans = append(plans, plan{simos.Fault{At: c.Index, Kind: simos.FShortWrite, Arg: k, Errno: e}, fmt.Sprintf("%v after %d of %d bytes of %s", e, k, c.N, where)})
+				plans = append(plans, plan{simos.Fault{At: c.Index, Kind: simos.FShortWrite, Arg: k, Errno: e}, fmt.Sprintf("%v after %d of %d bytes of %s", e, k, c.N, where), -1, false})
 			}
 		}
 	}
@@ -858,8 +874,13 @@ func c19Faults(x *xctx) *violation {
 			simos.MarkBase()
 			simos.StartLog()
 			simos.SetPlan([]simos.Fault{pl.f})
+			simos.SetDiskFullFrom(pl.fullFrom, pl.fullCreates, syscall.ENOSPC)
 			r := s.do(op.target())
 			simos.SetPlan(nil)
+			if n := simos.FiredFull(); n > 0 {
+				x.fault("disk:full-persisting", n)
+			}
+			simos.SetDiskFullFrom(-1, false, 0) // space is freed: the faults stop here
 			opPanic = r.Panic
 			if simrt.Aborting() {
 				return
